@@ -348,18 +348,15 @@ fn mt_run_one(cfg: &Value, out: &mut impl Write) -> usize {
     verif::trace_start();
     let kinds_ref: Vec<String> = (0..n).map(|i| if i == 0 { "src_eof".to_string() } else if i == n - 1 { "sink".to_string() } else { "sync".to_string() }).collect();
     let want = reference(&kinds_ref, total);
-    let hook2 = Hook2(hook);
     let main = std::thread::spawn(move || {
         verif::thread_start("main");
         let res = catch(|| g.run());
-        let got: Vec<Option<u64>> = hook2.0.data().samples().iter().map(|s| s.val()).collect();
-        let prefix_ok = got.len() <= want.len() && got.iter().zip(want.iter()).all(|(a, b)| *a == Some(*b));
         let outcome = match &res {
             Ok(Ok(())) => "ok",
             Ok(Err(_)) => "err",
             Err(_) => "panic",
         };
-        verif::emit(format!("\"ev\":\"mt_return\",\"outcome\":\"{outcome}\",\"got\":{},\"prefix_ok\":{prefix_ok},\"want\":{}", got.len(), want.len()));
+        verif::emit(format!("\"ev\":\"mt_return\",\"outcome\":\"{outcome}\""));
     });
     while ctl.registered() < 1 {
         std::thread::yield_now();
@@ -471,12 +468,15 @@ fn mt_run_one(cfg: &Value, out: &mut impl Write) -> usize {
     }
     verif::remove_controller();
     let _ = verif::trace_take();
-    steps
+    // The sink is read only now: every thread has finished (the sink block
+    // holds its storage lock across scheduling points).
+    let got: Vec<Option<u64>> = hook.data().samples().iter().map(|s| s.val()).collect();
+    let prefix_ok = got.len() <= want.len() && got.iter().zip(want.iter()).all(|(a, b)| *a == Some(*b));
+    writeln!(out, "{}", json!({"t": "-", "pt": "final", "g": "go", "evs": [], "exited": false, "b": 0,
+        "got": got.len(), "prefix_ok": prefix_ok, "want": want.len()})).unwrap();
+    steps + 1
 }
 
-struct Hook2(Hook);
-// SAFETY: the hook is an Arc<Mutex<..>>; Big is plain data.
-unsafe impl Send for Hook2 {}
 
 /// mtgraph-run --configs FILE --out FILE
 pub fn cmd_mt_run(args: &[String]) -> i32 {
